@@ -167,6 +167,16 @@ func schedKeyURI(k int) string { return fmt.Sprintf("/s/%d?q=a%%2Fb+c", k) }
 
 func mutateRecord(cr *rng, data []byte) ([]byte, string) {
 	d := append([]byte(nil), data...)
+	if cr.chance(15) && len(d) > 40 {
+		// garble only the HTTP status code of the stored response (the 4 bytes after the header block): a value no
+		// HTTP response can carry
+		for i := 8; i+4 <= len(d)-16; i++ {
+			if binary.BigEndian.Uint32(d[i:i+4]) == 200 {
+				binary.BigEndian.PutUint32(d[i:i+4], []uint32{7, 99, 1000, 99999, 4294967295}[cr.intn(5)])
+				return d, "http-status-code"
+			}
+		}
+	}
 	switch cr.intn(6) {
 	case 0:
 		v := uint32(cr.intn(8))
@@ -243,7 +253,8 @@ var directedSchedules = [][]string{
 	// damaged records of a cached response after a restart: no response part, no expiry — each is a miss
 	{"store:1", "arrive:0", "get:0:honest", "upEnd:0:cacheable:60", "complete:0", "saved:0:1", "crash",
 		"arrive:0", "get:1:noresp", "upEnd:1:error:1", "complete:1", "saved:1:0", "crash",
-		"arrive:0", "get:2:noexp", "upEnd:2:error:1", "complete:2", "saved:2:0"},
+		"arrive:0", "get:2:noexp", "upEnd:2:error:1", "complete:2", "saved:2:0", "crash",
+		"arrive:0", "get:3:badcode", "upEnd:3:error:1", "complete:3", "saved:3:0"},
 	// hit-for-pass lapse: single prober, others wait
 	{"store:0", "hfp:2s", "arrive:0", "get:0", "upEnd:0:error:1", "complete:0", "saved:0:1", "tick:1", "arrive:0", "get:1", "tick:2", "arrive:0", "arrive:0", "get:2", "get:3", "park:3", "upEnd:1:nostore:1", "upEnd:2:cacheable:3", "complete:2", "saved:2:1", "resume:3", "age:3"},
 	// restart: served from the store with Age continuing, then past the original expiry
@@ -294,6 +305,15 @@ func runSchedule(cr *rng, seq int, script []string) (blocked bool) {
 				d := append([]byte(nil), rec[0:4]...)
 				d = append(d, 0, 0, 0, 0)
 				d = append(d, rec[len(rec)-16:]...)
+				data, err, out = d, nil, "bytes:"+hxb(d)
+			case plan == "badcode" && len(rec) >= 40: // scripted: the stored response's status code is not an HTTP status (refused)
+				d := append([]byte(nil), rec...)
+				for i := 8; i+4 <= len(d)-16; i++ {
+					if binary.BigEndian.Uint32(d[i:i+4]) == 200 {
+						binary.BigEndian.PutUint32(d[i:i+4], 99999)
+						break
+					}
+				}
 				data, err, out = d, nil, "bytes:"+hxb(d)
 			case plan == "noexp" && len(rec) >= 24: // scripted: a record without an expiry (refused)
 				d := append([]byte(nil), rec...)
